@@ -64,6 +64,7 @@ contract(
     calls={"self.project.idxToDate": ("spec", ["self", "i"], "ite(self.attributes['start'] is None, None, PT(self, i))")},
     static={},
     locals={"resource": Opt(Ref("Resource")), "slot_start": Opt(DT)},
+    modifies=["$obj:MyRS(self).slotSecondsUsed", "$obj:MyList(self)"],
 )
 
 # ---- task-side limits (C05: all tasks below a limited task together) ----------------------------------------------
@@ -127,6 +128,7 @@ contract(
     ensures=[("ledger-frame", "True")],
     calls={"self.getAllLimits": ("contract", TS + "::TaskScenario.getAllLimits"),
            "limits.inc": ("contract", LM + "::Limits.inc")},
+    modifies=["Limit._dirty", "$region:Limit._scoreboard"],
     note="every limits object of the chain receives inc (call-site preconditions proved); the aggregated counting "
          "postcondition across distinct limits objects is not carried (needs separation of their counter lists)",
 )
@@ -176,4 +178,5 @@ contract(
         "self.limitsOk": ("contract", TS + "::TaskScenario.limitsOk"),
     },
     static={"hasattr(self, 'slotStartOffset')": True},
+    modifies=[m.replace("self.", f"{_br_rs}.").replace("@self", f"@{_br_rs}") for m in L.BOOK_MODIFIES],
 )
